@@ -177,8 +177,15 @@ func (c *MemoryCache[MetadataT]) cacheInternal(key CacheKey, data io.Reader, exp
 	}
 
 	c.mu.Lock()
+	previous, overwritten := c.entries[key]
 	c.entries[key] = internalEntry
 	c.mu.Unlock()
+
+	if overwritten {
+		// The previous version of this key is gone: it must no longer be counted
+		decrementCacheEntries()
+		decrementCacheSize(&c.byteSize, previous.meta.Size)
+	}
 
 	incrementCacheEntries()
 	addCacheSize(&c.byteSize, int64(count))
